@@ -15,6 +15,7 @@ import sys
 V = "/verif"
 sys.path.insert(0, V + "/engine")
 OUT = "/scratch/corpus"
+SRC = os.environ.get("CORPUS_SRC", "/repo")      # a frozen copy of the tree the references were frozen on (git archive), so that /repo may move
 WORK = "/scratch/corpus-work"
 
 
@@ -28,6 +29,18 @@ def sha(p):
         for chunk in iter(lambda: fh.read(1 << 20), b""):
             h.update(chunk)
     return h.hexdigest()
+
+
+def touched_by_others():
+    """source files that differ between /repo and the other checkouts that share the target dir (selftest copies): their crates' metadata
+    in the target dir may come from the other checkout, so they are touched as well (re-checked from this copy's sources)"""
+    out = []
+    for other in ("/scratch/ckb-verif-selftest/repo",):
+        if not os.path.isdir(other):
+            continue
+        r = sh("diff -rq --exclude=target --exclude=.git /repo %s 2>/dev/null | grep '^Files' | awk '{print $2}'" % other)
+        out += [os.path.relpath(x, "/repo") for x in r.stdout.split() if x.endswith(".rs")]
+    return out
 
 
 def main():
@@ -52,7 +65,7 @@ def main():
     os.makedirs(repo, exist_ok=True)
     # warm-up: one full extraction of the unpatched copy, so that every member has a fingerprint for this path; afterwards cargo itself
     # re-checks (and the driver re-emits) only the crates a patch changes and their dependents; all other fact files are the base tree's
-    sh("rsync -a --delete --exclude /target --exclude /.git /repo/ %s/" % repo)
+    sh("rsync -a --delete --exclude /target --exclude /.git %s/ %s/" % (SRC, repo))
     lock = open(V + "/.cache/lock", "w")
     fcntl.flock(lock, fcntl.LOCK_EX)      # the extraction of a check / selftest running at the same time deletes member fingerprints
     try:
@@ -69,19 +82,22 @@ def main():
         if os.path.exists(out + "/COMPLETE") and not force:
             continue
         sh("rm -rf %s" % out)
-        sh("rsync -a --delete --exclude /target --exclude /.git /repo/ %s/" % repo)
-        a = sh("patch -p1 -d %s < %s/%s/patch.diff" % (repo, V, i))
-        if a.returncode:
-            print(i, "APPLY FAILED", a.stdout[-300:], a.stderr[-300:])
-            continue
-        files = [l[6:].strip() for l in open("%s/%s/patch.diff" % (V, i)) if l.startswith("+++ b/")]
-        for f in set(files + prev_files):       # rsync restores old mtimes: make cargo see both the reverted and the patched files as changed
-            if os.path.exists(os.path.join(repo, f)):
-                os.utime(os.path.join(repo, f))
-        prev_files = files
+        # the lock is taken BEFORE the files are touched: cargo hashes workspace-relative paths, so every checkout (a check on /repo, a selftest
+        # copy, this copy) shares the member fingerprints of the one target dir; an extraction of another checkout that ran between the
+        # patching and this extraction would leave fingerprints newer than the patched files and cargo would call them fresh
         lock = open(V + "/.cache/lock", "w")
         fcntl.flock(lock, fcntl.LOCK_EX)
         try:
+            sh("rsync -a --delete --exclude /target --exclude /.git %s/ %s/" % (SRC, repo))
+            a = sh("patch -p1 -d %s < %s/%s/patch.diff" % (repo, V, i))
+            if a.returncode:
+                print(i, "APPLY FAILED", a.stdout[-300:], a.stderr[-300:])
+                continue
+            files = [l[6:].strip() for l in open("%s/%s/patch.diff" % (V, i)) if l.startswith("+++ b/")]
+            for f in set(files + prev_files + touched_by_others()):       # rsync restores old mtimes: make cargo see the reverted and the patched files as changed
+                if os.path.exists(os.path.join(repo, f)):
+                    os.utime(os.path.join(repo, f))
+            prev_files = files
             r = sh("CKB_FACTS_INCREMENTAL=1 %s/bin/extract.sh %s %s %s/.cache/target" % (V, out, repo, V))
         finally:
             fcntl.flock(lock, fcntl.LOCK_UN)
